@@ -8,8 +8,19 @@ A_E1 = 'A-E1: extraction desugarings (listed under coverage.desugarings) preserv
 A_T1 = 'A-T1: Verus/Z3, Kani/CBMC and rustc are sound'
 
 PROPS = {
+    'C19': {
+        'verus': ['dense'],
+        'kani': [],
+        'native': False,
+        'assumptions': [A_E1, A_T1,
+                        'A-GA1: generic_array::GenericArray<T,N> behaves as [T; N::USIZE] (as_slice, as_mut_slice, default, index)',
+                        'A-V1: std Vec::resize_with / with_capacity / reserve per vstd + one assumed specification',
+                        'A-D1: derived Default/Clone/PartialEq on Row and DenseMatrix are field-wise (not verified)',
+                        'Iter / IterMut (macro-generated, closure-based) and the unsafe functions uninitialized / from_rows / ravel / ravel_mut / fill are outside Verus; see coverage.bounded'],
+        'explanation': 'DenseMatrix representation invariant (data.len() == rows, every row has C cells) proved preserved by every safe operation from an arbitrary pre-state, so by induction for all operation histories',
+    },
     'C04': {
-        'verus': ['seq'],
+        'verus': ['seq', 'stripe'],
         'kani': [],
         'native': False,
         'assumptions': [A_E1, A_T1,
